@@ -28,24 +28,24 @@ theorem sigPoly_sameKeys {d d' : DSS} (h : SameKeys d d') : sigPoly q d' = sigPo
   obtain ⟨_, _, h3, h4, h5, _⟩ := h
   simp [sigPoly, h3, h4, h5]
 
-theorem partialSig_sameKeys (d : DSS) : SameKeys d (partialSig q d).1 := by
+theorem partialSig_sameKeys (fx : Bool) (d : DSS) : SameKeys d (partialSig fx q d).1 := by
   unfold partialSig
   simp only
-  split <;> exact ⟨rfl, rfl, rfl, rfl, rfl, rfl, rfl, rfl, rfl⟩
+  split_ifs <;> exact ⟨rfl, rfl, rfl, rfl, rfl, rfl, rfl, rfl, rfl⟩
 
 theorem processPartialSig_sameKeys (d : DSS) (ps : PartialSig) (a : Bool) : SameKeys d (processPartialSig q d ps a).1 := by
   unfold processPartialSig
   split_ifs <;> exact ⟨rfl, rfl, rfl, rfl, rfl, rfl, rfl, rfl, rfl⟩
 
-theorem step_sameKeys (d : DSS) (op : Op) : SameKeys d (step q d op) := by
+theorem step_sameKeys (fx : Bool) (d : DSS) (op : Op) : SameKeys d (step fx q d op) := by
   cases op
-  · exact partialSig_sameKeys d
+  · exact partialSig_sameKeys fx d
   · exact processPartialSig_sameKeys d _ _
 
-theorem run_sameKeys (d : DSS) (ops : List Op) : SameKeys d (run q d ops) := by
+theorem run_sameKeys (fx : Bool) (d : DSS) (ops : List Op) : SameKeys d (run fx q d ops) := by
   induction ops generalizing d with
   | nil => exact SameKeys.refl d
-  | cons op ops ih => exact (step_sameKeys d op).trans (ih (step q d op))
+  | cons op ops ih => exact (step_sameKeys fx d op).trans (ih (step fx q d op))
 
 /-- The equation checked by `ProcessPartialSig` says: the value lies on `sigPoly` at `idx+1`. -/
 theorem partialEq_iff (hq : 0 < q) (d : DSS) (idx v : Nat) :
@@ -75,13 +75,14 @@ theorem ownOK_sameKeys {d d' : DSS} (h : SameKeys d d') (ho : OwnOK q d) : OwnOK
   rw [h1, h5, h7, h8, h9, hp]
   exact ho
 
-theorem inv_step (hq : 0 < q) (d : DSS) (op : Op) (ho : OwnOK q d) (hi : Inv q d) : Inv q (step q d op) := by
+theorem inv_step (hq : 0 < q) (fx : Bool) (d : DSS) (op : Op) (ho : OwnOK q d) (hi : Inv q d) : Inv q (step fx q d op) := by
   cases op with
   | sign =>
-    show Inv q (partialSig q d).1
+    show Inv q (partialSig fx q d).1
     unfold partialSig
     simp only
-    split
+    split_ifs
+    · exact hi
     · refine ⟨by simp [hi.1], ?_⟩
       intro p hp
       simp only [List.mem_append, List.mem_singleton] at hp
@@ -107,11 +108,11 @@ theorem inv_step (hq : 0 < q) (d : DSS) (op : Op) (ho : OwnOK q d) (hi : Inv q d
         have : partialEq q d ps.I ps.V = true := by simpa using h5
         exact (partialEq_iff hq d ps.I ps.V).mp this
 
-theorem inv_run (hq : 0 < q) (d : DSS) (ops : List Op) (ho : OwnOK q d) (hi : Inv q d) : Inv q (run q d ops) := by
+theorem inv_run (hq : 0 < q) (fx : Bool) (d : DSS) (ops : List Op) (ho : OwnOK q d) (hi : Inv q d) : Inv q (run fx q d ops) := by
   induction ops generalizing d with
   | nil => exact hi
   | cons op ops ih =>
-    exact ih (step q d op) (ownOK_sameKeys (step_sameKeys d op) ho) (inv_step hq d op ho hi)
+    exact ih (step fx q d op) (ownOK_sameKeys (step_sameKeys fx d op) ho) (inv_step hq fx d op ho hi)
 
 theorem validIdx_partials (ps : List Share) (h : ∀ p ∈ ps, ∃ v, p.V = some v) :
     validIdx (ps.map some) = ps.map (·.I) := by
